@@ -28,6 +28,10 @@ GEN_KW = {'n_cells': 9, 'features': ['names', 'array'], 'case_titles': True}
 def pick_outs(g, s):
     rnd = random.Random(s * 13 + 2)
     forms = [i for i in g.order if g.cells[i]['k'] in ('f', 'sp', 'af')]
+    if list(g.sheets) == list(G.LAYOUT_SAME) and forms:
+        # one sheet title in two books: ask for (nearly) everything, so that both sheets
+        # of that title are completed within one model
+        return forms[-6:]
     return rnd.sample(forms, min(len(forms), rnd.randint(1, 2))) or [g.order[0]]
 
 
